@@ -24,6 +24,23 @@ CHECKS = {
              '(including shapes txdbus cannot itself produce), over the C01 space; exhaustive 17 codes x 64 offsets x 2 '
              'orders alignment/zero-padding grid. Catches symmetric encoder/decoder errors a round trip cannot.',
         note=TRUST),
+    'C03': dict(
+        category='exploration', design_ref='DESIGN.md section 3 C03',
+        technique='Hypothesis-generated messages, strict reference decoder + differential parse of reference-encoded bytes',
+        text='Every generated message (4 classes x field subsets x flags x bodies x serial-counter start values) must be '
+             'accepted by a strict spec decoder and parse back identically; reference-encoded variants (either byte '
+             'order, permuted and unknown header fields) must parse to the same message; invalid names, the reserved '
+             'path and the size limit (synthetic limits and the real 2^27 boundary) must raise MarshallingError.',
+        note=TRUST),
+    'C04': dict(
+        category='exploration', design_ref='DESIGN.md section 3 C04',
+        technique='schedule generation: Hypothesis-generated streams x generated/exhaustive read partitions fed to dataReceived',
+        text='The harness owns the read boundaries: generated message streams (mixed byte orders, CR LF forced into '
+             'binary data) are fed under random partitions, byte-at-a-time, single reads, every single and every double '
+             'cut of short streams (exhaustive per stream) and 1500/5000-message coalesced reads, through a '
+             'pre-authenticated receiver and through real server/client handshakes; deliveries must equal the sent '
+             'sequence.',
+        note='in-memory transport instead of a socket; peer-credential lookup disabled; ' + TRUST),
     'C18': dict(
         category='exploration', design_ref='DESIGN.md section 3 C18',
         technique='bounded-exhaustive string enumeration + Hypothesis, differential against hand-written grammar recognisers',
